@@ -1,0 +1,73 @@
+//go:build verif
+
+package hlist
+
+// Contracts for package hlist, checked by /verif/govc.  Comment-only file.
+//
+// An HList of arity N is  Cons[A1, Cons[A2, … Cons[AN, Nil]…]].  Every position has its
+// own type parameter.
+
+// ---- basics (hlist.go) -------------------------------------------------------------------
+//
+// Concat is the constructor, Head/Tail/Unapply the projections.
+//@ lemma consDef[H any, T any](h H, t T, c Cons[H, T])
+//@   prop C14
+//@   ensures Eq(Concat(h, t), Cons[H, T]{head: h, tail: t})
+//@   ensures Eq(Head(Concat(h, t)), h)
+//@   ensures Eq(Concat(h, t).Head(), h)
+//@   ensures Eq(Tail(Concat(h, t)), t)
+//@   ensures Eq(Concat(Head(c), Tail(c)), c)
+//@   ensures Eq(c.Head(), Head(c))
+//@   ensures Eq(verifspec.P2(Unapply(c)), verifspec.P2(Head(c), Tail(c)))
+//@   ensures Eq(verifspec.P2(Unapply(Concat(h, t))), verifspec.P2(h, t))
+//
+//@ lemma nilDef[H any, T any](c Cons[H, T])
+//@   prop C14
+//@   ensures Eq(Empty(), Nil{})
+//@   ensures Eq(Empty().Head(), Nil{})
+//@   ensures IsNil[Nil](Empty())
+//@   ensures !IsNil[Cons[H, T]](c)
+//
+// ---- Of{N}(a1, …, aN) = a1 :: a2 :: … :: aN :: Nil ---------------------------------------
+//
+//@ lemma of1Def[A1 any](a1 A1)
+//@   prop C14
+//@   ensures Eq(Of1(a1), Concat(a1, Empty()))
+//
+//@ schema N=2..21
+//@ lemma of{N}Def[<<i=1..N|, |A$i>> any](<<i=1..N|, |a$i A$i>>)
+//@   prop C14
+//@   ensures Eq(Of{N}(<<i=1..N|, |a$i>>), <<i=1..N||Concat(a$i, >>Empty()<<i=1..N||)>>)
+//@   ensures Eq(Head(Of{N}(<<i=1..N|, |a$i>>)), a1)
+//@   ensures Eq(Tail(Of{N}(<<i=1..N|, |a$i>>)), Of{N-1}(<<i=2..N|, |a$i>>))
+//@ schema end
+//
+// ---- Case{N}(a1 :: … :: aN :: t, f) = f(a1, …, aN) ---------------------------------------
+//
+//@ schema N=1..21
+//@ lemma case{N}Def[<<i=1..N|, |A$i>> any, T any, R any](<<i=1..N|, |a$i A$i>>, t T, f func(<<i=1..N|, |A$i>>) R)
+//@   prop C14
+//@   ensures EqT(Case{N}(<<i=1..N||Concat(a$i, >>t<<i=1..N||)>>, f), f(<<i=1..N|, |a$i>>))
+//@ schema end
+//
+// ---- Lift{N}(f)(a1 :: … :: aN :: Nil) = f(a1, …, aN) -------------------------------------
+// ---- Rift{N}(f)(aN :: … :: a1 :: Nil) = f(a1, …, aN) -------------------------------------
+//
+//@ schema N=1..9
+//@ lemma lift{N}Def[<<i=1..N|, |A$i>>, R any](f func(<<i=1..N|, |A$i>>) R, <<i=1..N|, |a$i A$i>>)
+//@   prop C14
+//@   ensures EqT(Lift{N}(f)(<<i=1..N||Concat(a$i, >>Empty()<<i=1..N||)>>), f(<<i=1..N|, |a$i>>))
+//@   ensures EqT(Rift{N}(f)(<<i=N..1|~|Concat(a$i, >>Empty()<<i=1..N||)>>), f(<<i=1..N|, |a$i>>))
+//@   ensures EqT(Lift{N}(f)(Of{N}(<<i=1..N|, |a$i>>)), f(<<i=1..N|, |a$i>>))
+//@   ensures EqT(Rift{N}(f)(Of{N}(<<i=N..1|~, |a$i>>)), f(<<i=1..N|, |a$i>>))
+//@ schema end
+//
+// ---- Reverse{N}(a1 :: … :: aN :: Nil) = aN :: … :: a1 :: Nil -----------------------------
+//
+//@ schema N=2..9
+//@ lemma reverse{N}Def[<<i=1..N|, |A$i>> any](<<i=1..N|, |a$i A$i>>)
+//@   prop C14
+//@   ensures Eq(Reverse{N}(<<i=1..N||Concat(a$i, >>Empty()<<i=1..N||)>>), <<i=N..1|~|Concat(a$i, >>Empty()<<i=1..N||)>>)
+//@   ensures Eq(Reverse{N}(Of{N}(<<i=1..N|, |a$i>>)), Of{N}(<<i=N..1|~, |a$i>>))
+//@   ensures Eq(Reverse{N}(Reverse{N}(Of{N}(<<i=N..1|~, |a$i>>))), Of{N}(<<i=N..1|~, |a$i>>))
+//@ schema end
